@@ -185,8 +185,9 @@ class Prov:
             idx = params.index(name)
             cs = self.callers(h["fn"])
             f = self.c.fns.get(h["fn"], {})
+            api_tag = "api:%s#%d" % (short(h["fn"]), idx)
             if f.get("pub") and not cs:
-                return {"api:%s" % name}
+                return {api_tag}
             for (ch, call) in cs:
                 if ch["fn"] == h["fn"]:
                     continue  # recursive call passes the same parameter along
@@ -196,6 +197,6 @@ class Prov:
                 if idx < len(args):
                     out |= self.of(ch, args[idx], depth + 1)
             if f.get("pub"):
-                out.add("api:%s" % name)
+                out.add(api_tag)
             return out or {"unknown:param %s without callers" % name}
         return {"unknown:local %s" % name}
